@@ -80,7 +80,8 @@ def project(market, pool: Pool, broker):
     pos = {}
     for k, p in market.positions.items():
         pos[(int(k.lower_tick), int(k.upper_tick))] = (int(p.liquidity), frac(Decimal(p.pending_amount0)), frac(Decimal(p.pending_amount1)))
-    return {"w": (frac(broker.get_token_balance(pool.t0)), frac(broker.get_token_balance(pool.t1))), "pos": pos}
+    lent = sorted((int(k.lower_tick), int(k.upper_tick)) for k, p in market.positions.items() if p.transferred)
+    return {"w": (frac(broker.get_token_balance(pool.t0)), frac(broker.get_token_balance(pool.t1))), "pos": pos, "lent": lent}
 
 
 def run_behaviour(pool: Pool, scn, events, row0, float_ticks=False, est_ranges=None, F=1):
@@ -130,6 +131,12 @@ def run_behaviour(pool: Pool, scn, events, row0, float_ticks=False, est_ranges=N
         if op == "sell":
             fee, base, quote = market.sell(amt(ev["a"]))
             return {"fee": fee, "quote": quote, "base": base}
+        if op == "lend":
+            market.transfer_position_out(PositionInfo(r[0], r[1]))
+            return {}
+        if op == "unlend":
+            market.transfer_position_in(PositionInfo(r[0], r[1]))
+            return {}
         raise ValueError(op)
 
     def views():
@@ -204,6 +211,9 @@ def cmp_state(proj, st, tally, fee_owner=False, prev_proj=None, prev_st=None):
     if set(spec_pos) != set(proj["pos"]):
         out.append(MM("C03", "position_set", f"positions code {sorted(proj['pos'])} spec {sorted(spec_pos)}"))
         return out
+    spec_lent = sorted(r for r, v in spec_pos.items() if v.get("out"))
+    if "lent" in proj and spec_lent != [tuple(x) for x in proj["lent"]]:
+        out.append(MM("C01", "lent_positions", f"positions lent out: code {proj['lent']} spec {spec_lent}"))
     for r, v in spec_pos.items():
         liq, p0, p1 = proj["pos"][r]
         sl = nat(v["liq"])
@@ -242,7 +252,7 @@ def cmp_view(pool, view, sv, tally):
     return out
 
 
-RET_KEYS = {"add": ("base", "quote", "liq"), "remove": ("base", "quote"), "collect": ("base", "quote"),
+RET_KEYS = {"lend": (), "unlend": (), "add": ("base", "quote", "liq"), "remove": ("base", "quote"), "collect": ("base", "quote"),
             "buy": ("fee", "quote", "base"), "sell": ("fee", "quote", "base")}
 
 
@@ -308,6 +318,8 @@ def compare_run(pool: Pool, recs, err, steps, tally, init_proj=None, init_st=Non
             if ev["op"] in ("add", "remove", "collect"):
                 if abs(dv) > dust:
                     mm.append(MM("C03", "value_not_conserved", f"{ev['op']} ({rec['out']}) changed net value by {float(dv)!r} (dust {float(dust)!r})"))
+            elif ev["op"] in ("lend", "unlend"):
+                pass      # the position moves between this market's valuation and the borrower's (C01 owns "counted once")
             elif rec["out"] == "ok" and rec["ret"] is not None:
                 fee = frac(Decimal(rec["ret"]["fee"]))
                 fee_q = fee if ev["op"] == "buy" else fee * Q(views[i]["price"]) if views is not None else fee
